@@ -1,5 +1,13 @@
 --------------------------- MODULE Trace_Collector ---------------------------
-(* Trace specification for C07.  One strategy call on the real code = two lines:                *)
+(* Trace specification for C07.  A scenario is a HISTORY of calls on one real strategy instance *)
+(* (a single call on a fresh instance is the history of length one).  The Reset line of call 1  *)
+(* is the construction of the instance; the Reset line of a further call must carry the same    *)
+(* construction parameters (Persistent) - and nothing else links the calls: each is judged by   *)
+(* Collector.tla from FreshCall with its own nodes' behaviour, whatever the instance has been   *)
+(* through before and whatever other call was in flight beside it (calls that overlapped in     *)
+(* real time are written one after the other: CollectorInst.tla - no step of one call reads or  *)
+(* writes the other).  The object a call returns must be one a node gave in THIS call (`of`).   *)
+(* One strategy call on the real code = two lines:                                              *)
 (*   Reset   the configuration (variant, n, threshold, channel capacity, time-out T) and, for   *)
 (*           every node, what its fake actually returned (kind, value, real score) and the      *)
 (*           instant (ms after the call started) at which it returned;                          *)
@@ -41,10 +49,15 @@ TraceInit ==
 TraceReset ==
     /\ IsEvent("Reset")
     /\ LET r == Trace[l] IN
-        /\ variant' = r.variant
-        /\ n' = r.n
-        /\ thr' = r.thr
-        /\ cap' = r.cap
+        /\ IF r.call = 1
+           THEN \* a new instance
+                variant' = r.variant /\ n' = r.n /\ thr' = r.thr /\ cap' = r.cap
+           ELSE \* a further call on the same instance (Collector!NextCall, CollectorInst!StartOverlap)
+                /\ l > 1 /\ Trace[l - 1].sc = r.sc
+                /\ r.variant = variant /\ r.n = n /\ r.thr = thr /\ r.cap = cap
+                /\ UNCHANGED Persistent
+        \* every node is asked and answers, fails or stays silent: nothing else is a node's behaviour
+        /\ \A p \in 1..r.n : r.obs[p].k \in {"valid", "invalid", "error", "silent"}
         /\ beh' = [p \in 1..r.n |-> [k |-> r.obs[p].k, v |-> r.obs[p].v, s |-> r.obs[p].s]]
         /\ ph' \in [1..r.n -> {"early", "mid", "late"}]
         /\ \A p \in 1..r.n : IF r.obs[p].k = "silent" THEN ph'[p] = "late"
@@ -63,6 +76,7 @@ Matches(res, r) ==
     /\ r.noreturn = FALSE
     /\ r.ok = (res.st = "ok")
     /\ r.ok => /\ r.nildata = FALSE
+               /\ r.of = r.call                      \* an answer given in this call, not one the instance kept
                /\ IF variant \in {"Best", "First"} THEN res.p = r.who ELSE res.v = r.val
 
 TraceReturn ==
